@@ -166,7 +166,7 @@ class TreeProfile(object):
 
         for node in treeMap.traverse():
             if node.is_root():
-                node_genome = self.ham.get_ancestral_genome_by_name(node.name)
+                node_genome = self.ham._get_ancestral_genome_by_name(node.name)
                 _add_annot(node, len(node_genome.genes), None, None, None, None, None, None)
 
             else:
